@@ -22,12 +22,15 @@ class Failed:
         return False
 
 
-def call(ctx, sub, fn, *args, refuse=(), refuse_if=None, disc=None, **kwargs):
+def call(ctx, sub, fn, *args, refuse=(), refuse_if=None, disc=None, keep_warnings=False, **kwargs):
     """Run an xeofs call that the property says must succeed.
 
     An exception is a violation `sub` (discriminated by exception type) unless its type is in
     `refuse` (documented refusal -> the case ends, counted as refused)."""
     try:
+        if keep_warnings:  # the caller records warnings itself
+            with contextlib.redirect_stdout(io.StringIO()), contextlib.redirect_stderr(io.StringIO()):
+                return fn(*args, **kwargs)
         with warnings.catch_warnings():
             warnings.simplefilter("ignore")
             with contextlib.redirect_stdout(io.StringIO()), contextlib.redirect_stderr(io.StringIO()):
